@@ -50,6 +50,13 @@ def gen(rng):
   drivers = {"d1": main}
   if rng.random() < 0.4:
     drivers["d2"] = [["settle"], ["pub", rng.choice(names), "A", 1], ["post", rng.choice(names), "fifo", "A"]]
+  if n >= 2 and rng.random() < 0.3:
+    # one subscriber is stopped while publications are on their way: the others are still owed every publication
+    # (the stopper waits one time unit rather than for the system to settle: a delivery thread that is being slow must not hold it up)
+    victim = rng.choice(names[:2])
+    drivers["d1"] = drivers["d1"][:-1] + [["pub", rng.choice(names), "A", 1], ["pub", rng.choice(names), "A", 1], ["settle"]]
+    direct = sum(1 for o in drivers["d1"] if o[0] == "pub")
+    drivers["d3"] = [["wait_started", victim], ["wait_pubs", rng.randint(1, direct)], ["sleep", 1], ["stop", victim]]
   cfg = {"cap": 30, "aos": aos, "drivers": drivers}
   if rng.random() < 0.5:
     # the fabric's registries are plain dicts and lists: pre-empt between the source lines of subscribe()
@@ -64,6 +71,11 @@ def _work(args):
     rng = random.Random((seed << 21) ^ (tid * 2654435761 % (1 << 32)))
     cfg = gen(rng)
     pol = dsched.RandomPolicy(rng, stick=rng.choice([0.0, 0.5, 0.8])) if tid % 2 else dsched.PCTPolicy(rng, 3, 120)
+    if rng.random() < 0.35:
+      # a slow thread: a delivery thread (or an object's thread) is held back in the middle of what it is doing until everyone else
+      # has run as far as they can - e.g. a delivery loop that has served one subscriber and not yet the next
+      pol = dsched.StallPolicy(pol, rng, p=rng.choice([0.03, 0.08, 0.2]), durations=(2, 3), max_stalls=rng.randint(1, 3),
+                               only=rng.choice([("fab_",), ("fab_", "ao_"), None]))
     r = sysdrive.run_one(cfg, dsched.FairSuffix(pol, 1500), 4000)
     r["cfg"] = cfg
     out.append((tid, r))
